@@ -39,7 +39,10 @@ import (
 	"encoding/json"
 	"fmt"
 	"math/big"
+	"os"
+	"os/exec"
 	"sort"
+	"strconv"
 	"strings"
 	"sync"
 	"sync/atomic"
@@ -52,7 +55,7 @@ import (
 	. "verifharness/hlib"
 )
 
-func main() { Main("C26", runC26, nil) }
+func main() { Main("C26", runC26, map[string]func([]string) int{"stress": stressChild}) }
 
 // ---- vocabulary -------------------------------------------------------------------
 
@@ -917,8 +920,74 @@ func runStress(c *Ctx) {
 		}
 	}
 	g.ops = nil
-	c.Stats.Count("stress_runs")
 	concurrentRun(c, g, per, 8)
+}
+
+// The stress runs happen in a child process: unsynchronised access to the keeper's maps
+// is a fatal runtime error ("concurrent map writes") that cannot be recovered, and it is
+// an observable of its own.
+type stressOut struct {
+	Runs     int             `json:"runs"`
+	Failures []OracleFailure `json:"failures"`
+}
+
+func stressChild(args []string) int {
+	seed, _ := strconv.ParseUint(args[0], 10, 64)
+	runs, _ := strconv.Atoi(args[1])
+	c := &Ctx{Prop: "C26", Seed: seed, Tier: args[2], Rng: NewRng(seed), Stats: NewStats("C26", seed, args[2])}
+	for i := 0; i < runs; i++ {
+		runStress(c)
+	}
+	js, _ := json.Marshal(stressOut{Runs: runs, Failures: c.Stats.OracleFailures})
+	fmt.Println(string(js))
+	return 0
+}
+
+func stressStage(c *Ctx) error {
+	seed := c.Rng.Next() >> 1
+	runs := c.N(40, 150)
+	cmd := exec.Command(os.Args[0], "child", "stress", fmt.Sprint(seed), fmt.Sprint(runs), c.Tier)
+	var stdout, stderr strings.Builder
+	cmd.Stdout, cmd.Stderr = &stdout, &stderr
+	done := make(chan error, 1)
+	if err := cmd.Start(); err != nil {
+		return err
+	}
+	go func() { done <- cmd.Wait() }()
+	replay := map[string]interface{}{"stage": "stress", "child_seed": seed, "runs": runs, "tier": c.Tier,
+		"how": "4 goroutines x pre-generated Reserve/Cancel/ReserveParticular lists on one keeper, released together"}
+	select {
+	case err := <-done:
+		if err != nil {
+			line := "abnormal exit: " + err.Error()
+			for _, l := range strings.Split(stderr.String(), "\n") {
+				if strings.HasPrefix(l, "fatal error:") || strings.HasPrefix(l, "panic:") {
+					line = l
+					break
+				}
+			}
+			c.Stats.Fail("class=keeper-crash: concurrent keeper calls crashed the process: "+line, replay)
+			c.Stats.Count("oracle_failure")
+			return nil
+		}
+	case <-time.After(10 * time.Minute):
+		cmd.Process.Kill()
+		c.Stats.Fail("class=keeper-hang: concurrent keeper calls did not finish within 10 minutes", replay)
+		c.Stats.Count("oracle_failure")
+		return nil
+	}
+	var out stressOut
+	if err := json.Unmarshal([]byte(strings.TrimSpace(stdout.String())), &out); err != nil {
+		return fmt.Errorf("stress child output: %v: %q", err, stdout.String())
+	}
+	for i := 0; i < out.Runs; i++ {
+		c.Stats.Count("stress_runs")
+	}
+	for _, f := range out.Failures {
+		c.Stats.Fail(f.What, f.Case)
+		c.Stats.Count("oracle_failure")
+	}
+	return nil
 }
 
 func concurrentRun(c *Ctx, g *genCase, per [][]opSpec, snapEvery int) {
@@ -1291,8 +1360,8 @@ func runC26(c *Ctx) error {
 			runConcurrent(c, g)
 		}
 	}
-	for i := 0; i < c.N(40, 150); i++ {
-		runStress(c)
+	if err := stressStage(c); err != nil {
+		return err
 	}
 	c.Stats.Rule = "a case is a universe of 3..14 outputs (two accounts, two assets, three vote keys incl. nil/empty; amounts mostly 1..5 so that ties are the rule, or 1..30, or ~2^60, or ~2^63 so that uint64 sums wrap; valid heights around the current height 100) placed in the wallet DB, the contract DB, the unconfirmed map or both DB and unconfirmed map (25% of the outputs), and 4..31 operations: Reserve (amount 0, tiny, up to the total, total+0..2, 2^64-1), ReserveParticular (incl. unknown outputs), Cancel (live, dead, unknown ids), expireReservation, AddUnconfirmedUtxo, RemoveUnconfirmedUtxo, DB put/delete (confirming an unconfirmed output creates the overlap), height changes; distinct = distinct (universe, sequence); non-trivial = at least two successful reservations, one of them holding >= 2 outputs; after every operation the implementation's results and bookkeeping are checked against the property (distinct, real, matching, mature, unreserved outputs; sum >= request; change = excess; result class from the funds; live reservations pairwise disjoint; reserved map exact); every third case is replayed split over 4 goroutines, and 40 (thorough 150) stress runs of 4 goroutines x 120 (300) Reserve/Cancel/ReserveParticular calls on one keeper over 16..27 outputs are released together, with the scheduling-independent part of the oracle (cover of every success, exact insufficient/immature, disjointness and reserved map on snapshots, final live set = returned and not cancelled); the per-operation results and the final bookkeeping are compared with the Coq model"
 	header := "From Coq Require Import ZArith NArith List Bool.\nFrom C26 Require Import Model Run.\nImport ListNotations.\nOpen Scope N_scope.\n"
